@@ -33,7 +33,9 @@ BaseCase == [prop |-> Prop, sub |-> "", tls |-> FALSE, kind |-> "http", method |
              nrstatus |-> 404, nrpage |-> "", resp |-> "ok",
              peer |-> "v4",          \* the client connects over 127.0.0.1 ("v4") or ::1 ("v6")
              cfgspell |-> "canon",
-             accesslog |-> FALSE]    \* an access logger is configured (must not change what anybody receives)   \* configured header names in canonical MIME spelling, or as people write them ("odd": X-TLS, X-Client-IP)
+             accesslog |-> FALSE,
+             hist |-> <<>>,          \* earlier requests through the same route (C13 histories), the own request last
+             hostlabel |-> "a"]      \* which of the hosts matching the route's host pattern is asked for    \* an access logger is configured (must not change what anybody receives)   \* configured header names in canonical MIME spelling, or as people write them ("odd": X-TLS, X-Client-IP)
 Ordinary(src, strip, prepend, hostopt, tq) ==
     [NoRouteRec EXCEPT !.src = src, !.strip = strip, !.prepend = prepend, !.hostopt = hostopt, !.tquery = tq]
 Tpl(scheme, host, pre, var, slash, q) == [scheme |-> scheme, host |-> host, pre |-> pre, var |-> var, slash |-> slash, query |-> q]
@@ -255,7 +257,23 @@ C13EncPaths    == << <<S, "s", "%C3%B6", "k", S, "a", "%2F", "b">>,
                      <<S, "plain", S, "a", "%2F", "b">>,
                      <<S, "plain", S, "a", S, "b">> >>
 
-C13Outer == {<<"kinds", tp, cd, kd, 1>> : tp \in DOMAIN C13KindTpls, cd \in DOMAIN C13KindCodes, kd \in DOMAIN C13Kinds}
+\* --- never sliced: histories of 2 and 3 requests through one redirect route whose host pattern matches several hosts;
+\* the requests differ in host, path and query in every position
+C13HistTpls == << Tpl("https", "$host", <<S, "new">>, TRUE, FALSE, <<>>),          \* https://$host/new$path
+                  Tpl("http", "$host", <<S, "new">>, TRUE, TRUE, <<"q=1">>),       \* http://$host/new/$path?q=1
+                  Tpl("https", "$host", <<S>>, FALSE, FALSE, <<>>),                \* https://$host/
+                  Tpl("https", "t.example", <<>>, TRUE, FALSE, <<>>) >>            \* https://t.example$path
+C13HistReqs == << [host |-> "a", path |-> <<S, "hist", S, "x">>, query |-> <<>>],
+                  [host |-> "b", path |-> <<S, "hist", S, "x">>, query |-> <<>>],
+                  [host |-> "a", path |-> <<S, "hist", S, "y">>, query |-> <<>>],
+                  [host |-> "b", path |-> <<S, "hist", S, "y">>, query |-> <<>>],
+                  [host |-> "a", path |-> <<S, "hist", S, "x">>, query |-> <<"a=1">>],
+                  [host |-> "b", path |-> <<S, "hist", S, "x">>, query |-> <<"a=1">>],
+                  [host |-> "a", path |-> <<S, "hist", S, "a", "%2F", "b">>, query |-> <<>>],
+                  [host |-> "b", path |-> <<S, "hist", S, "a", "%2F", "b">>, query |-> <<"a=1">>] >>
+
+C13Outer == {<<"history", tp, r1, r2, 1>> : tp \in DOMAIN C13HistTpls, r1 \in DOMAIN C13HistReqs, r2 \in DOMAIN C13HistReqs}
+            \cup {<<"kinds", tp, cd, kd, 1>> : tp \in DOMAIN C13KindTpls, cd \in DOMAIN C13KindCodes, kd \in DOMAIN C13Kinds}
             \cup {<<"encopt", tp, s, pp, 1>> : tp \in DOMAIN C13EncTpls, s \in DOMAIN C13EncStrips, pp \in DOMAIN C13EncPrepends}
             \cup {<<"redir", tp, cd, s, pp>> : tp \in DOMAIN C13Tpls, cd \in DOMAIN C13Codes, s \in DOMAIN C13Strips, pp \in DOMAIN C13Prepends}
             \cup {<<"badcode", cd, s, 1, 1>> : cd \in DOMAIN C13BadCodes, s \in DOMAIN C13Strips}
@@ -270,6 +288,16 @@ C13Inner(o) ==
           t \in { u \in (DOMAIN C13Paths) \X (DOMAIN C13Queries) \X (DOMAIN C13RHosts) \X {1, 2} :
                   /\ ~C13Skip(o[2], o[4], o[5], u[1])
                   /\ Keep(o[2] + 5 * o[3] + 7 * o[4] + 11 * o[5] + 3 * u[1] + 13 * u[2] + 17 * u[3] + 19 * u[4]) } }
+      [] o[1] = "history" ->
+        \* t[1] = 1: the two requests; t[1] = 2: the first one once more at the end
+        { LET h == IF t[1] = 1 THEN <<C13HistReqs[o[3]], C13HistReqs[o[4]]>>
+                   ELSE <<C13HistReqs[o[3]], C13HistReqs[o[4]], C13HistReqs[o[3]]>>
+              own == h[Len(h)] IN
+          [BaseCase EXCEPT !.sub = "history", !.tls = (t[2] = 2), !.hist = h,
+                           !.path = own.path, !.query = own.query, !.hostlabel = own.host,
+                           !.routes = << [Ordinary(<<S, "hist">>, <<>>, <<>>, "", <<>>)
+                                          EXCEPT !.code = Code("301", 301), !.tpl = C13HistTpls[o[2]], !.ghost = TRUE] >>] :
+          t \in {1, 2} \X {1, 2} }
       [] o[1] = "kinds" ->
         { [BaseCase EXCEPT !.sub = "kinds", !.method = C13Kinds[o[4]][1], !.kind = C13Kinds[o[4]][2],
                            !.tls = (t[3] = 2), !.query = C13Queries[t[2]], !.path = C13KindPaths[t[1]],
@@ -307,5 +335,6 @@ DenyOuter == {1, 2}
 DenyInner(o) == { [BaseCase EXCEPT !.sub = "deny", !.routes = << [Ordinary(<<S>>, <<>>, <<>>, "", <<>>) EXCEPT !.admitted = (o = 1)] >>] }
 
 \* one JSON line per finished case
-Gen == pc = "done" => PrintT(ToJson([c |-> c, up |-> up, hits |-> hits, out |-> out]))
+Gen == pc = "done" => PrintT(ToJson([c |-> c, up |-> up, hits |-> hits, out |-> out,
+                                      answers |-> IF c.hist = <<>> THEN <<>> ELSE HistAnswers(route)]))
 =============================================================================
